@@ -1,4 +1,5 @@
 import EpgVerif.Props.C08
+import EpgVerif.Tie.ApplySites
 open EpgVerif.Props.C08
 #print axioms wf_pointwise
 #print axioms wf_matApply
@@ -13,3 +14,4 @@ open EpgVerif.Props.C08
 #print axioms wf_run
 #print axioms only_PD_changes_equilibrium
 #print axioms wf_init
+#print axioms EpgVerif.Tie.ApplySites.sites_as_modelled
